@@ -143,7 +143,7 @@ static void setup_bfs(Runner &r, const Tier &t) {
         for (int k = 0; k < int(L->langs.size()) && k < (t.thorough ? 6 : 2); ++k) g_bfs.push_back({ fi, k + 1 });
     }
     // faces loaded in the parent are inherited by the forked children (read-only use)
-    r.ncases = g_bfs.size(); r.case_alarm_s = 600;
+    r.ncases = g_bfs.size(); r.case_alarm_s = unsigned(r.deadline_s) + 600;
     r.describe = [](uint64_t i) { JObj o; o.kv("font", g_fonts[g_bfs[i].font].name).kv("start", g_bfs[i].start == -1 ? std::string("gr_featureval_clone(NULL)") : g_bfs[i].start == 0 ? std::string("defaults") : "language #" + std::to_string(g_bfs[i].start - 1))
         .kv("ops", "set(f,v) for f in the boundary feature subset, v in {0,1,mid,max,max+1,0xFFFF}; clone"); return o; };
     r.body = [](uint64_t ci, ShardCtl &c) {
@@ -168,6 +168,7 @@ static void setup_bfs(Runner &r, const Tier &t) {
         uint64_t states = 1, trans = 0; std::vector<uint16_t> got; bool failed = false;
         { gr_feature_val *fv = make_start(); readall(fv, got); size_t at; if (!same(got, startv, &at)) { JObj o; o.kv("font", g_fonts[bc.font].name).kv("kind", "start_state").kv("feature", (unsigned long long)at).kv("got", got[at]).kv("want", startv[at]); report_fail(ci, o); failed = true; } gr_featureval_destroy(fv); }
         while (!q.empty() && !failed) {
+            if (deadline_hit(c)) break;
             Node n = q.front(); q.pop_front();
             if (int(n.hist.size()) >= depth) continue;
             for (int oi = 0; oi < int(ops.size()) && !failed; ++oi) {
